@@ -38,7 +38,7 @@ Report ==
   /\ Rep("FinishedFrozen", FinishedFrozen(P, O, Ev))
   /\ Rep("JoinGate", JoinGate(D, P, O))
   /\ Rep("JoinOnce", JoinOnce(D, O, RerunSeen))
-  /\ Rep("Caused", Caused(D, O))
+  /\ Rep("Caused", Caused(D, P, O))
   /\ Rep("ReqGate", ReqGate(D, P, O))
   /\ Rep("OnlyNeededOnce", OnlyNeededOnce(D, O))
   /\ Rep("DupNoEffect", DupNoEffect(P, O, Ev))
